@@ -79,7 +79,7 @@ PROPS = {
                      'broker_handlers_channel', 'broker_handlers_registry', 'broker_handlers_subs', 'broker_handlers_routing',
                      'broker_handlers_bus_listener', 'broker_handlers_shutdown'],
         trusted_base=TB_VERUS + TB_REGISTRY + TB_CONN + [
-            'Broker::remove_channel_end is ASSUMED (closure capturing &mut self); BusListener::{add_filter, remove_filter} are '
+            'BusListener::{add_filter, remove_filter} are '
             'ASSUMED on the filter set only (`|=` on bool, iterator adapters), so the cached flags behind '
             'specific_objects()/specific_services() and their unreachable!() arms are NOT decided',
         ],
@@ -113,8 +113,6 @@ PROPS = {
         verus_units=['broker_state', 'broker_conn_id', 'broker_handlers_shutdown', 'broker_handlers_registry', 'broker_handlers_subs', 'broker_handlers_routing',
                      'broker_handlers_bus_listener', 'broker_handlers_channel'],
         trusted_base=TB_VERUS + TB_REGISTRY + [
-            'Broker::remove_channel_end is ASSUMED (closure capturing &mut self is outside Verus\'s subset); its contract '
-            '(units/_shared/remove_channel_end_contract.rs) is written from its body and call sites',
             'the helper contracts used by shutdown_connection are imported verbatim from the units that verify the helpers '
             '(remove_object: registry unit; remove_event_subscription, remove_all_events_subscription, remove_subscription: '
             'subscription unit; remove_bus_listener: bus-listener unit)',
@@ -344,12 +342,15 @@ PROPS = {
         verus_units=['broker_channel', 'broker_handlers_channel', 'broker_conn_id'],
         trusted_base=TB_VERUS + TB_CONN + ['std::mem::replace specification'],
         assumptions=[
-            'Broker::remove_channel_end is ASSUMED (closure capturing &mut self is outside Verus\'s subset); '
-            'claim_channel_end, create_channel, shutdown_connection are not verified',
+            'all seven channel functions of broker.rs are verified (create_channel, claim_channel_end, close_channel_end, '
+            'add_channel_capacity, send_item, remove_channel_end; shutdown_connection in the teardown unit); the closures of '
+            'claim_channel_end / remove_channel_end are inlined by the extractor (normalisation N11)',
         ],
         undecided_clauses=[
             'in-order exactly-once delivery of ItemReceived on the wire (handler layer + transport)',
-            'peer notification in Broker::remove_channel_end / claim_channel_end (messages on the wire are not in the state model)',
+            'that a notification is actually put on the wire and arrives (messages are not in the state model); decided instead: '
+            'WHERE each channel message may go (precondition of send: ItemReceived / ChannelEndClaimed / ChannelEndClosed / '
+            'AddChannelCapacity only to the connection holding the right end)',
             'client-side Sender/Receiver mirrors (aldrin/src/low_level/channel/established.rs) under schedules',
         ],
         explanation='inductive invariant + per-operation pre/postconditions on the verbatim text of '
